@@ -39,8 +39,10 @@ MO_READS = ["nelec", "spinpol", "occsa", "occsb", "norb", "nbasis", "coeffsa", "
 OCC_VALUES = {
     0: [[]],
     1: [[2.0], [1.0], [0.0], [0.7], [1.5]],
-    2: [[2.0, 0.0], [2.0, 1.0], [1.0, 1.0], [1.6, 0.4], [0.0, 0.0], [1.0, 0.0], [0.0, 1.0], [2.0, 2.0]],
-    3: [[2.0, 1.0, 0.0], [2.0, 2.0, 0.0], [1.0, 1.0, 1.0], [1.9, 0.1, 0.0], [2.0, 0.5, 0.5], [1.0, 0.0, 1.0]],
+    2: [[2.0, 0.0], [2.0, 1.0], [1.0, 1.0], [1.6, 0.4], [0.0, 0.0], [1.0, 0.0], [0.0, 1.0], [2.0, 2.0],
+        [2.0, 0.999999999], [1.9999999999, 1.0000000001]],
+    3: [[2.0, 1.0, 0.0], [2.0, 2.0, 0.0], [1.0, 1.0, 1.0], [1.9, 0.1, 0.0], [2.0, 0.5, 0.5], [1.0, 0.0, 1.0],
+        [2.0, 0.999999999, 0.0], [2.0, 1.0, 1e-10]],  # almost-integer occupations as read from text files
     4: [[2.0, 2.0, 1.0, 0.0], [1.0, 1.0, 1.0, 0.0], [2.0, 1.0, 1.0, 0.0], [1.99, 1.5, 0.5, 0.01], [1.0, 0.0, 1.0, 0.0]],
     5: [[2.0, 2.0, 1.0, 0.0, 0.0], [1.0, 1.0, 0.0, 1.0, 0.0]],
     6: [[2.0, 2.0, 2.0, 0.0, 0.0, 0.0], [1.0, 1.0, 1.0, 1.0, 0.0, 0.0], [1.0, 1.0, 0.3, 0.7, 0.0, 0.0]],
